@@ -17,7 +17,7 @@ import logging
 import warnings
 from typing import Any, Callable, Optional
 
-from kopfsim import cluster as cl
+from kopfsim import threads, cluster as cl
 from kopfsim import core, net
 
 # Which object the code currently running in this task works for (set by scripted handlers;
@@ -132,6 +132,7 @@ class Operator:
         self.leftovers_cancelled = False
         self.last_credentials: Any = None
         self.t_process_gone: Optional[float] = None
+        self.executor: Optional[threads.SimExecutor] = None
 
     # ------------------------------------------------------------------
     def start(self) -> None:
@@ -145,6 +146,9 @@ class Operator:
         self.t_start = sim.now
         self.registry = registries.OperatorRegistry()
         self.settings = build_settings(spec.get('settings', {}))
+        threads.install_seam()
+        self.executor = threads.SimExecutor(sim, self.loop, start_latency=spec.get('thread_start_latency', 0.0))
+        self.settings.execution.executor = self.executor
         self.memories = inventory.ResourceMemories()
         self.indexers = indexing.OperatorIndexers()
         self.stop_flag = asyncio.Event()
@@ -282,6 +286,11 @@ class Operator:
         for s in self.sessions:
             s.dead = True
         loop.alive = False
+        if self.executor is not None:
+            try:
+                self.executor.abort_all()
+            except BaseException:
+                pass
         try:
             for _ in range(60):
                 tasks = [t for t in asyncio.all_tasks(loop) if not t.done()]
@@ -629,6 +638,50 @@ def make_oneshot_fn(op: Operator, hs: dict[str, Any]) -> Any:
     per_object = hs.get('scripts', {})  # name -> script (overrides)
     subs = hs.get('subs', [])
 
+    if hs.get('sync'):
+        # a synchronous handler: kopf runs it in the executor's (simulated) thread; its blocking calls are simsleep()
+        def sync_fn(**kwargs: Any) -> Any:
+            c = _begin_call(op, hs, hid, kwargs)
+            sc = per_object.get(c.name, script) if c.name is not None else script
+            step = _script_step(sc, c.n)
+            outcome = 'cancelled'
+            aborted = False
+            try:
+                dur = step.get('dur', 0.0)
+                if dur:
+                    threads.simsleep(dur)
+                _apply_patch_actions(step, kwargs, c)
+                if subs and hs['kind'] in ('create', 'update', 'delete', 'resume', 'field'):
+                    for sub in subs:
+                        subfn = make_oneshot_fn(op, dict(sub, kind=hs['kind'], id=f"{hid}/{sub['id']}"))
+                        subfn.__name__ = subfn.__qualname__ = sub['id']
+                        so = sub.get('opts', {})
+                        kw = {k: so[k] for k in ('timeout', 'retries', 'backoff') if k in so}
+                        kopf.subhandler(id=sub['id'], **kw)(subfn)
+                do = step.get('do', 'ok')
+                if do == 'ok':
+                    outcome = 'ok'
+                    return copy.deepcopy(step.get('result'))
+                elif do == 'temp':
+                    outcome = 'temp'
+                    raise kopf.TemporaryError(f"scripted temporary error #{c.n}", delay=step.get('delay', 1.0))
+                elif do == 'perm':
+                    outcome = 'perm'
+                    raise kopf.PermanentError(f"scripted permanent error #{c.n}")
+                elif do == 'exc':
+                    outcome = 'exc'
+                    raise SimHandlerError(f"scripted arbitrary error #{c.n} ☃")
+                else:
+                    raise ValueError(f"unknown scripted outcome {do!r}")
+            except threads.SimThreadAbort:
+                aborted = True
+                raise
+            finally:
+                if not aborted:
+                    _end_call(op, c, outcome)
+
+        return sync_fn
+
     async def fn(**kwargs: Any) -> Any:
         c = _begin_call(op, hs, hid, kwargs)
         sc = per_object.get(c.name, script) if c.name is not None else script
@@ -676,6 +729,79 @@ def make_daemon_fn(op: Operator, hs: dict[str, Any]) -> Any:
     behaviour = hs.get('daemon', {})
     mode = behaviour.get('mode', 'obey')
     poll = behaviour.get('poll', 0.5)
+
+    if behaviour.get('sync'):
+        # A synchronous daemon (a simulated thread). It cannot be cancelled; what it does about its stop flag:
+        #   obey   -- blocks in stopped.wait() and returns when the flag is raised (+ exit_delay);
+        #   poll   -- looks at the flag between blocking calls of `poll` seconds;
+        #   ignore -- goes on for `hold` seconds after the flag was raised (looking every `poll` seconds);
+        #   exit / raise / temp -- as the async ones.
+        def sync_fn(**kwargs: Any) -> Any:
+            c = _begin_call(op, hs, hid, kwargs)
+            stopped = kwargs['stopped']
+            sim = run.sim
+            outcome = 'returned'
+            c.extra = {'sync': True}
+            aborted = False
+
+            def on_set(t: float) -> None:
+                c.extra.setdefault('flag_at', t)
+                c.extra.setdefault('reason_at_flag', str(stopped.reason))
+
+            def note_flag() -> None:
+                if bool(stopped) and 'flag_at' not in c.extra:
+                    on_set(sim.now)
+
+            ev = stopped._setter.sync_event
+            if isinstance(ev, threads.SimEvent):
+                if ev.is_set():
+                    on_set(ev.sim_set_at if ev.sim_set_at is not None else sim.now)
+                else:
+                    ev.sim_on_set.append(on_set)
+            try:
+                if mode == 'obey':
+                    stopped.wait()
+                    note_flag()
+                    c.extra['flag_seen_at'] = sim.now
+                    c.extra['reason_seen'] = str(stopped.reason)
+                    extra_delay = behaviour.get('exit_delay', 0.0)
+                    if extra_delay:
+                        threads.simsleep(extra_delay)
+                elif mode == 'poll':
+                    while not stopped:
+                        threads.simsleep(poll)
+                    note_flag()
+                    c.extra['flag_seen_at'] = sim.now
+                    c.extra['reason_seen'] = str(stopped.reason)
+                elif mode in ('ignore', 'cancel'):
+                    hold = behaviour.get('hold', 5.0)
+                    stopped.wait()
+                    note_flag()
+                    threads.simsleep(hold)
+                elif mode == 'exit':
+                    threads.simsleep(behaviour.get('after', 1.0))
+                    outcome = 'returned-own'
+                elif mode == 'raise':
+                    threads.simsleep(behaviour.get('after', 1.0))
+                    outcome = 'raised'
+                    raise SimHandlerError("scripted daemon failure")
+                elif mode == 'temp':
+                    import kopf
+                    threads.simsleep(behaviour.get('after', 1.0))
+                    outcome = 'temp'
+                    raise kopf.TemporaryError("scripted daemon temporary", delay=behaviour.get('delay', 1.0))
+                return copy.deepcopy(behaviour.get('result'))
+            except threads.SimThreadAbort:
+                aborted = True
+                raise
+            finally:
+                if not aborted:
+                    note_flag()
+                    c.stop_seen = bool(stopped)
+                    c.extra['reason_at_exit'] = str(stopped.reason)
+                    _end_call(op, c, outcome)
+
+        return sync_fn
 
     async def fn(**kwargs: Any) -> Any:
         c = _begin_call(op, hs, hid, kwargs)
